@@ -122,6 +122,30 @@ def fresh_path(ext='.dlis') -> str:
     return os.path.join(scratch_dir(), f'f{_counter[0]}{ext}')
 
 
+_prior_counter = [0]
+
+
+def leave_prior_file(path: str):
+    """Every third monitored write finds its target path OCCUPIED: by junk longer than most outputs, by an earlier DLIS file
+    with larger visible records, or by a short file.  A write replaces what was there (C01: "... and nothing else")."""
+    _prior_counter[0] += 1
+    k = _prior_counter[0]
+    if k % 3:
+        return None
+    kind = ('junk-longer', 'earlier-dlis-larger-records', 'short')[(k // 3) % 3]
+    if kind == 'junk-longer':
+        blob = bytes((i * 37 + 11) % 251 for i in range(70000))
+    elif kind == 'earlier-dlis-larger-records':
+        sul = b'   1V1.00RECORD16384' + b'EARLIER-FILE'.ljust(60)
+        vr = (16384).to_bytes(2, 'big') + b'\xff\x01' + (16380).to_bytes(2, 'big') + b'\x00\x01' + bytes(16376)
+        blob = sul + vr * 6
+    else:
+        blob = b'x' * 40
+    with open(path, 'wb') as f:
+        f.write(blob)
+    return kind
+
+
 def execute(spec: dict, keep_file=False, on_flush=None, want_taps=True, **write_override):
     """Build + write one spec with taps and log capture; return an oracle.Run (not analysed)."""
     from . import spec as S, oracle
@@ -132,6 +156,7 @@ def execute(spec: dict, keep_file=False, on_flush=None, want_taps=True, **write_
             return oracle.Run(spec, b, b.error, None, None, None, list(logs))
         taps = Taps(on_flush)
         del DECLARED_MISMATCH[:]
+        prior_kind = leave_prior_file(path)
         with taps:
             wout = S.do_write(spec, b, path, scratch_dir(), **write_override)
     data = None
@@ -140,6 +165,7 @@ def execute(spec: dict, keep_file=False, on_flush=None, want_taps=True, **write_
             data = f.read()
     run = oracle.Run(spec, b, wout, data, taps.lr if want_taps else None, taps.flush, list(logs))
     run.path = path
+    run.prior_kind = prior_kind
     run.declared_mismatch = list(DECLARED_MISMATCH)     # [(declared, passed)] when the write loop saw another number of records
     if not keep_file:
         with contextlib.suppress(OSError):
@@ -167,6 +193,7 @@ def write_records(mx, records, output_chunk_size=2 ** 16, set_identifier='MAIN-S
     from dliswriter.logical_record.misc import StorageUnitLabel
     path = path or fresh_path()
     spec = {'sul': {'set_identifier': set_identifier, 'sequence_number': seq, 'max_record_length': mx}}
+    prior_kind = leave_prior_file(path)
     taps = Taps(on_flush)
     wout = ('ok',)
     with capture_logs() as logs:
@@ -184,6 +211,7 @@ def write_records(mx, records, output_chunk_size=2 ** 16, set_identifier='MAIN-S
             data = f.read()
     run = oracle.Run(spec, None, wout, data, taps.lr, taps.flush, list(logs))
     run.path = path
+    run.prior_kind = prior_kind
     if not keep_file:
         with contextlib.suppress(OSError):
             os.remove(path)
